@@ -259,10 +259,20 @@ class Ctx(object):
             # the axes have answered is_monotonic() before: their cached state must not change any answer
             for ax in a.axes:
                 ax.is_monotonic()
+        if register and getattr(self, 'c15_mode', False) and not attrs:
+            # C15: operands carry metadata with mutable values ...
+            attrs = {'hist': [1, [2, 3]], 'meta': {'k': [4]}}
+            a.attrs.update(attrs)
         if register:
+            import copy as _copy
             self.operands.append({'obj': a, 'dims': tuple(dims), 'labels': [list(l) for l in labels],
                                   'cells': list(cells), 'kind': kind, 'attrs': dict(attrs or {}),
-                                  'attr_ids': dict((k, id(v)) for k, v in (attrs or {}).items())})
+                                  'attrs_snapshot': _copy.deepcopy(dict((k, v) for k, v in (attrs or {}).items() if isinstance(v, (list, dict)))),
+                                  'axis_attrs': [dict(ax.attrs) for ax in a.axes]})
+            if getattr(self, 'c15_mode', False) and len(dims) >= 1:
+                # ... and share their Axis objects with a live sibling (result of transpose)
+                sib = a.transpose(list(reversed(dims)))
+                self.operands[-1]['sibling'] = sib
         return a
 
     def operands_unchanged(self):
@@ -279,6 +289,15 @@ class Ctx(object):
             for k, v in op['attrs'].items():
                 if k in a.attrs:
                     oks.append(a.attrs[k] is v or a.attrs[k] == v)
+            for k, v in op.get('attrs_snapshot', {}).items():
+                oks.append(k in a.attrs and a.attrs[k] == v)
+            for ax, at in zip(a.axes, op.get('axis_attrs', [])):
+                oks.append(dict(ax.attrs) == at)
+            sib = op.get('sibling')
+            if sib is not None:
+                oks.append(tuple(sib.dims) == tuple(reversed(op['dims'])))
+                for ax, l in zip(sib.axes, list(reversed(op['labels']))):
+                    oks.append(self.eqlist(ax.values.tolist(), l))
         return self.AND(*oks)
 
     # ------------------------------------------------------------------ observing results
@@ -336,7 +355,10 @@ class Ctx(object):
         makes the next result on that operand wrong)."""
         if obs is not None:
             self.obs = obs
-        if not inplace and ok is not False:
+        if getattr(self, 'only_operands', False):
+            # C15 catalogue: the verdict is the operand obligation alone
+            ok = True if inplace else self.operands_unchanged()
+        elif not inplace and ok is not False:
             ok = self.AND(ok, self.operands_unchanged())
         if self.sym:
             self.eng.obs = self.obs
